@@ -440,7 +440,7 @@ def gen_shape(rng, cx=False):
         if k != "__default__":
             yield case("diag", [A(rng, (3, 3), "any", cx)], {"k": k})
             yield case("diag", [A(rng, (3,), "any", cx)], {"k": k})
-        for shp in ((3, 3), (2, 4), (4, 2), (2, 3, 3), (3, 2, 4)):
+        for shp in ((3, 3), (2, 4), (4, 2), (2, 3, 3), (3, 2, 4), (3,)):
             yield case("tril", [A(rng, shp, "any", cx)] + kargs)
             yield case("triu", [A(rng, shp, "any", cx)] + kargs)
             if k != "__default__":
@@ -527,7 +527,7 @@ def gen_shape(rng, cx=False):
         yield case("pad", [R(r), 1], tags=["default_mode"])
         yield case("pad", [R(r), 1, "constant"], {"constant_values": 0.0})
         yield case("pad", [R(r), 1, "constant"], {"constant_values": 2.0}, tags=["option"])
-        for mode in ("edge", "reflect", "wrap", "symmetric", "linear_ramp", "mean", "maximum"):
+        for mode in ("edge", "reflect", "wrap", "symmetric", "linear_ramp", "mean", "maximum", "minimum", "median"):
             yield case("pad", [R(r, lo=3, hi=3), 1, mode], tags=["unsupported_mode"])
             yield case("pad", [R(r, lo=3, hi=3), 1], {"mode": mode}, tags=["unsupported_mode"])
     # split family
@@ -894,6 +894,9 @@ def gen_linalg(rng, cx=False):
             yield case("eig", [real_eig(rng, shp, cx)], ns="linalg", tags=["values+vectors"], gauge="eigvec")
         if b != (2, 2):
             yield case("solve", [well_cond(rng, b + (2, 2), cx), A(rng, (2, 3), "any", cx)], ns="linalg", argnum=1, tags=["bcast_b"])
+        if b:
+            for argnum in (0, 1):
+                yield case("solve", [well_cond(rng, (2, 2), cx), A(rng, b + (2, 3), "any", cx)], ns="linalg", argnum=argnum, tags=["bcast_a"])
         for (m, n) in ((2, 2), (3, 2), (2, 3), (3, 3), (1, 3), (3, 1)):
             shp = b + (m, n)
             yield case("pinv", [sep_sv(rng, shp, cx)], ns="linalg")
